@@ -27,8 +27,9 @@ Inductive act :=
 | AShutdown                          (* current().shutdown() *)
 | ARestartIn (d : N)                 (* current().shutdow_and_restart_in(d) *)
 | APanic                             (* panic!() *)
-| AQuiet.                            (* callbacks only: request shutdown() unless a request is already
-                                        pending, and return (the "falls silent" counterpart of APanic) *)
+| AQuiet.                            (* callbacks only, the "falls silent" counterpart of APanic: request
+                                        shutdown() unless a request is already pending, return, and let every
+                                        task that is polled in this event end at once without acting *)
 Definition prog := list act.
 
 (* One module.  [c_start]: at_sim_start(0) of incarnation i runs program min(i, last);
@@ -70,8 +71,9 @@ Definition fes_flush (ps : list (N * fev)) (f : fes) : fes :=
   fold_left (fun f p => fes_add (fst p) (snd p) f) ps f.
 
 (* ---- state ---- *)
-(* a spawned task: index in c_tasks, whether it has never been polled, rest of its script *)
-Record task := { tk_id : N; tk_new : bool; tk_rest : prog }.
+(* a spawned task: index in c_tasks, incarnation of the module that spawned it, whether it has
+   never been polled, rest of its script *)
+Record task := { tk_id : N; tk_inc : N; tk_new : bool; tk_rest : prog }.
 
 (* ModuleContext of one module: active flag; number of resets so far; remaining budget;
    shutdown_task; Driver::next_wakeup (None = SimTime::MAX); live timer entries sorted by
@@ -123,8 +125,8 @@ Definition set_tpanics (x : mst) (n : N) : mst :=
 Inductive cb :=
 | CbStart (stage : N)      (* Module::at_sim_start(stage) *)
 | CbMsg (x : N)            (* Module::handle_message(payload x) *)
-| CbTask (id : N)          (* first poll of task id *)
-| CbTimer (id : N)         (* task id resumed: its sleep completed *)
+| CbTask (id i : N)        (* first poll of task id spawned by incarnation i *)
+| CbTimer (id i : N)       (* task id of incarnation i resumed: its sleep completed *)
 | CbEnd.                   (* Module::at_sim_end *)
 
 (* [who]: 0 = the module's callback, 1 + id = task id.  ICall carries SimTime::now() and a
@@ -189,13 +191,13 @@ Definition quiet (m : N) (s : xs) : xs :=
                   | None => on_w (request m None) s
                   | Some _ => s end).
 
-Inductive res := RDone | RPanic | RSleep (d : N) (rest : prog).
+Inductive res := RDone | RPanic | RQuiet | RSleep (d : N) (rest : prog).
 
 Fixpoint run_prog (is_task : bool) (k now m who : N) (p : prog) (s : xs) : xs * res :=
   match p with
   | [] => (s, RDone)
   | APanic :: _ => (say (IPanic m who) s, RPanic)
-  | AQuiet :: r => if is_task then run_prog is_task k now m who r s else (quiet m s, RDone)
+  | AQuiet :: r => if is_task then run_prog is_task k now m who r s else (quiet m s, RQuiet)
   | ASleep d :: r => if is_task && (0 <? d) then (s, RSleep d r) else run_prog is_task k now m who r s
   | a :: r => run_prog is_task k now m who r (do_act k now m who a s)
   end.
@@ -209,15 +211,15 @@ Fixpoint tins (t : N) (tk : task) (l : list (N * task)) : list (N * task) :=
 
 (* one poll of a task by the tokio runtime of module m *)
 Definition poll1 (k now m : N) (s : xs) (tk : task) : xs :=
-  let s0 := say (ICall m (if tk_new tk then CbTask (tk_id tk) else CbTimer (tk_id tk)) now
+  let s0 := say (ICall m (if tk_new tk then CbTask (tk_id tk) (tk_inc tk) else CbTimer (tk_id tk) (tk_inc tk)) now
                        (active (w_mod (x_w s) m))) s in
   let '(s1, r) := run_prog true k now m (1 + tk_id tk) (tk_rest tk) s0 in
   match r with
-  | RDone => s1
+  | RDone | RQuiet => s1
   | RPanic => on_w (fun w => set_mod w m (set_tpanics (w_mod w m) (tpanics (w_mod w m) + 1))) s1
   | RSleep d rest =>
       on_w (fun w => set_mod w m (set_timers (w_mod w m)
-              (tins (now + d) {| tk_id := tk_id tk; tk_new := false; tk_rest := rest |} (timers (w_mod w m))))) s1
+              (tins (now + d) {| tk_id := tk_id tk; tk_inc := tk_inc tk; tk_new := false; tk_rest := rest |} (timers (w_mod w m))))) s1
   end.
 
 (* yield_now inside Harness::exec: every woken / freshly spawned task is polled once, FIFO *)
@@ -227,7 +229,7 @@ Definition poll_ready (k now m : N) (s : xs) : xs :=
 
 Definition spawn_all (m : N) (ps : list prog) (w : world) : world :=
   set_mod w m (set_ready (w_mod w m)
-    (ready (w_mod w m) ++ map (fun ip => {| tk_id := N.of_nat (fst ip); tk_new := true; tk_rest := snd ip |})
+    (ready (w_mod w m) ++ map (fun ip => {| tk_id := N.of_nat (fst ip); tk_inc := inc (w_mod w m); tk_new := true; tk_rest := snd ip |})
                               (combine (seq 0 (length ps)) ps))).
 
 (* Harness::exec(callback): the callback, then yield_now; a panic of the callback unwinds
@@ -236,7 +238,11 @@ Definition exec (k now m : N) (c : cb) (spawn : list prog) (p : prog) (s : xs) :
   let s0 := say (ICall m c now (active (w_mod (x_w s) m))) s in
   let s1 := on_w (spawn_all m spawn) s0 in
   let '(s2, r) := run_prog false k now m 0 p s1 in
-  match r with RPanic => (s2, true) | _ => (poll_ready k now m s2, false) end.
+  match r with
+  | RPanic => (s2, true)
+  | RQuiet => (on_w (fun w => set_mod w m (set_ready (w_mod w m) [])) s2, false)
+  | _ => (poll_ready k now m s2, false)
+  end.
 
 (* Harness::catch.  Result: was an error returned? *)
 Definition catch (c : modcfg) (m : N) (panicked : bool) (w : world) : world * bool :=
@@ -280,21 +286,25 @@ Definition cancelled (m : N) (c : modcfg) (x : mst) : list item :=
   flat_map (fun i => if existsb (N.eqb (N.of_nat i)) (live_ids x) then [ICancel m (N.of_nat i)] else [])
            (seq 0 (length (c_tasks c))).
 
-(* buf_process: drain the buffered events into the event set in order; then handle a
-   requested shutdown: mark inactive, drop the tokio runtime (tasks and their timer entries),
-   activate / Module::reset / deactivate, schedule the restart *)
-Definition buf_process (c : modcfg) (now m : N) (w : world) : world * list item :=
-  let w1 := set_buf (set_fes w (fes_flush (w_buf w) (w_fes w))) [] in
-  let x := w_mod w1 m in
+(* buf_process, second half: a requested shutdown is consumed: mark inactive, drop the tokio
+   runtime (tasks and their timer entries), activate / Module::reset / deactivate, schedule
+   the restart *)
+Definition shutdown_part (c : modcfg) (now m : N) (w : world) : world * list item :=
+  let x := w_mod w m in
   match shut x with
-  | None => (w1, [])
+  | None => (w, [])
   | Some r =>
     let x1 := {| active := false; inc := inc x + 1; bud := bud x; shut := None; nw := nw_bump now (nw x);
                  timers := []; ready := []; tpanics := tpanics x |} in
-    let w2 := set_mod w1 m x1 in
+    let w2 := set_mod w m x1 in
     (match r with Some t => set_fes w2 (fes_add t (EvRestart m) (w_fes w2)) | None => w2 end,
      cancelled m c x ++ [IReset m now (inc x + 1)])
   end.
+
+(* buf_process: drain the buffered events into the event set in order, then handle a
+   requested shutdown *)
+Definition buf_process (c : modcfg) (now m : N) (w : world) : world * list item :=
+  shutdown_part c now m (set_buf (set_fes w (fes_flush (w_buf w) (w_fes w))) []).
 
 (* ---- events.rs ---- *)
 Definition pick_start (c : modcfg) (i : N) : prog :=
@@ -329,7 +339,12 @@ Definition handle_message (k : N) (c : modcfg) (now m x : N) (s : xs) : xs :=
 Definition async_wakeup (k now m : N) (s : xs) : xs :=
   if active (w_mod (x_w s) m) then poll_ready k now m s else s.
 
-Record script := { s_mods : list modcfg; s_inj : list (N * fev) }.
+(* what the driver adds before the run: handle_message_on(m), add_message_onto(m.out | m.far) *)
+Inductive inj := InjDeliver (m x : N) | InjExit (m : N) (far : bool) (x : N).
+Definition inj_ev (i : inj) : fev :=
+  match i with InjDeliver m x => EvDeliver m x | InjExit m far x => EvExit m far x end.
+
+Record script := { s_mods : list modcfg; s_inj : list (N * inj) }.
 
 Definition cfg0 : modcfg :=
   {| c_catch := false; c_stages := 1; c_bud := 0; c_start := []; c_msg := []; c_tasks := []; c_end := [] |}.
@@ -416,7 +431,7 @@ Definition mst0 (c : modcfg) : mst :=
   {| active := true; inc := 0; bud := c_bud c; shut := None; nw := None; timers := []; ready := []; tpanics := 0 |}.
 
 Definition init_world (sc : script) : world :=
-  {| w_fes := fes_flush (s_inj sc) {| f_tcur := 0; f_zero := []; f_rest := [] |};
+  {| w_fes := fes_flush (map (fun p => (fst p, inj_ev (snd p))) (s_inj sc)) {| f_tcur := 0; f_zero := []; f_rest := [] |};
      w_mod := fun m => mst0 (cfg sc m); w_err := []; w_cur := None; w_buf := [] |}.
 
 (* Life/Term.v proves that this fuel is never exhausted *)
@@ -489,11 +504,11 @@ Fixpoint dec_mods (n : nat) (l : list N) : list modcfg * list N :=
   | S n' => let '(c, r) := dec_mod l in let '(cs, r') := dec_mods n' r in (c :: cs, r')
   end.
 
-Fixpoint dec_inj (k : N) (l : list N) : list (N * fev) :=
+Fixpoint dec_inj (k : N) (l : list N) : list (N * inj) :=
   match l with
   | kd :: m :: t :: x :: r =>
     (t, let kd := kd mod 3 in
-        if kd =? 0 then EvDeliver (m mod k) x else EvExit (m mod k) (kd =? 2) x) :: dec_inj k r
+        if kd =? 0 then InjDeliver (m mod k) x else InjExit (m mod k) (kd =? 2) x) :: dec_inj k r
   | _ => []
   end.
 
@@ -508,8 +523,8 @@ Definition enc_item (i : item) : list N :=
   match i with
   | ICall m (CbStart st) t a => [1; m; st; t; b2n a]
   | ICall m (CbMsg x) t a => [2; m; x; t; b2n a]
-  | ICall m (CbTask id) t a => [3; m; id; t; b2n a]
-  | ICall m (CbTimer id) t a => [4; m; id; t; b2n a]
+  | ICall m (CbTask id i) t a => [3; m; id; t; b2n a + 2 * i]
+  | ICall m (CbTimer id i) t a => [4; m; id; t; b2n a + 2 * i]
   | ICall m CbEnd t a => [5; m; 0; t; b2n a]
   | IReset m t i => [6; m; t; i; 0]
   | ILog m who x => [7; m; who; x; 0]
